@@ -1,7 +1,7 @@
 #!/usr/bin/env python3
 """Instance tables (committed, not discovered at run time): per property the harness instances that completed on the
 unchanged tree during development, with measured solver time `t` (seconds, under 16-way load). Writes instances.json."""
-import json, os
+import json, os, re
 V = os.path.dirname(os.path.abspath(__file__))
 P = {}
 
@@ -214,15 +214,19 @@ for h, t, b in [
 # ---------------------------------------------------------------------------------------------------------------- C15
 add = prop("C15", "c15",
  "Bounded model checking of the floating-point kernels that do not depend on libm values, bit-precisely (CBMC's IEEE-754 encoding of +,*,casts,shifts,from_bits): Prob::checked for ALL 2^64 f64 bit patterns; the fastexp kernel for ALL doubles x <= 0 (never NaN, result in [0, 1.005], (almost) zero below the cut-off, within 0.5 % of 1 at 0) and, cell by cell, for ALL doubles in each cell of a partition of the argument range: exp(lo)*(1-0.005) <= fastexp(x) <= exp(hi)*(1+0.005).",
- "The cell bounds use endpoint values of exp computed natively at generation time (trusted: exp is monotone; libm's exp is within 1 ulp at the endpoints, and the constants are rounded outward). By construction a kernel within the property's 0.5 % of exp is never rejected; a kernel accepted on a cell is within 0.5 % + cell slack (1.09 % for the 64-cell partition used). Quick: Prob::checked, the range harness (all x <= 0) and 16 of the 240 cheaper coarse cells (64 per octave for the octaves 2^0, 2^-1, 2^-8, 2^-64, 2^-512, minus cells 8..23 of each octave, which take 3-15 min each and run in the thorough tier only), rotated by VERIF_SEED so that successive runs cover different cells. Thorough: all 320 coarse cells. Solver time per cell varies from 5 s to 10 min (measured), hence the small quick sample and the generous per-cell timeout. " + TRUST + "Not decidable with this technique: every clause whose value depends on libm (ln_1p unsupported, exp/ln over-approximated by CBMC): the 0.5 % bound for ln_add_exp/ln_sum_exp/ln_cumsum_exp/ln_sub_exp/ln_one_minus_exp, the integrators, Prob<->LogProb and Prob<->PHRED conversions; the PHRED<->LogProb round trip (two multiplications by constants with a relative-error assertion) timed out at 10 min.",
+ "The cell bounds use endpoint values of exp computed natively at generation time (trusted: exp is monotone; libm's exp is within 1 ulp at the endpoints, and the constants are rounded outward). By construction a kernel within the property's 0.5 % of exp is never rejected; a kernel accepted on a cell is within 0.5 % + cell slack (1.09 % for the 64-cell partition used). Quick: Prob::checked, the range harness (all x <= 0) and 16 of the coarse cells (64 per octave for the octaves 2^0, 2^-1, 2^-8, 2^-64, 2^-512) whose measured solver time is at most 2 min, rotated by VERIF_SEED so that successive runs cover different cells. Thorough: all 316 coarse cells that a complete run decided (solver time per cell varies from 5 s to 36 min; 4 of the 320 cells did not finish within 46 min and are not listed, so the accuracy claim has these 4 gaps: c15_cellq_o8_001, o512_003, o512_022, o512_039). " + TRUST + "Not decidable with this technique: every clause whose value depends on libm (ln_1p unsupported, exp/ln over-approximated by CBMC): the 0.5 % bound for ln_add_exp/ln_sum_exp/ln_cumsum_exp/ln_sub_exp/ln_one_minus_exp, the integrators, Prob<->LogProb and Prob<->PHRED conversions; the PHRED<->LogProb round trip (two multiplications by constants with a relative-error assertion) timed out at 10 min.",
  ["bio::stats::probs::Prob::checked", "<f64 as bio::utils::FastExp>::fastexp"],
  "see level_note", "everything that calls libm; arguments between the listed octaves at the fine resolution", ["monotonicity of the real exponential; natively computed exp at cell endpoints, rounded outward by one ulp"])
 add("c15_prob_checked", 1, "Prob::checked(p).is_ok() <=> 0 <= p <= 1, all f64 bit patterns incl. NaN, +-inf, -0.0")
 add("c15_fastexp_range", 10, "fastexp for all doubles x <= 0 incl. -inf: not NaN, in [0,1.005], ~0 below -500, within 0.5 % at 0")
-for o in (0, 1, 8, 64, 512):
-    for i in range(64):
-        hard = 8 <= i <= 23   # measured: the cells with fraction in (-0.88,-0.62) take 3-15 min each, the others 5-130 s
-        add(f"c15_cellq_o{o}_{i:03d}", 900 if hard else 200, f"fastexp accuracy, coarse cell {i}/64 of the octave x*log2(e) in ({-o-1},{-o}]: all doubles in the cell", tier="thorough" if hard else "rotate", role="cell")
+# per-cell solver times measured by a complete thorough run on the unchanged tree (c15_cells.json); cells that did not finish
+# within 46 min there (4 of 320) are not listed. Cells that took <= 120 s are eligible for the quick tier's seed rotation.
+_cells = json.load(open(os.path.join(V, "c15_cells.json")))
+for name in sorted(_cells):
+    t = _cells[name]
+    o, i = re.match(r"c15_cellq_o(\d+)_(\d+)", name).groups()
+    add(name, max(60, t), f"fastexp accuracy, coarse cell {int(i)}/64 of the octave x*log2(e) in ({-int(o)-1},{-int(o)}]: all doubles in the cell",
+        tier="rotate" if t <= 120 else "thorough", role="cell")
 P["C15"]["rotate_k"] = 16
 
 json.dump(P, open(os.path.join(V, "instances.json"), "w"), indent=1)
